@@ -115,7 +115,20 @@ LogicalOf(o, base) ==
 (*       in force is emitted as {"type": base} (plus the extra keys above) *)
 (*       instead of the simple form.                                       *)
 (***************************************************************************)
+(*   "C12-foreign-structural-key-kept": a custom attribute whose key is     *)
+(*       structural for ANOTHER kind of node (size on an array or a field,  *)
+(*       symbols on a fixed, items on a record, ...) is not stripped: it is *)
+(*       emitted at that key's place in the fixed key order.                *)
 ExtraKeys == <<"order", "precision", "scale">>
+StructKeys == <<"name", "type", "fields", "symbols", "items", "values", "size">>
+KeyPos(k) == CHOOSE i \in 1..Len(StructKeys) : StructKeys[i] = k
+(* own = the node's own structural key/value pairs (already canonical); the foreign ones are merged in by position *)
+WithForeign(o, own, D) ==
+  IF "C12-foreign-structural-key-kept" \notin D THEN own
+  ELSE LET ownKeys == {own[i][1] : i \in 1..Len(own)}
+           fk == SelectSeq(StructKeys, LAMBDA k : HasKey(o, k) /\ k \notin ownKeys /\ Get(o, k).j = "int")
+           foreign == [i \in 1..Len(fk) |-> <<fk[i], Get(o, fk[i])>>]
+       IN SortSeq(own \o foreign, LAMBDA a, b : KeyPos(a[1]) < KeyPos(b[1]))
 
 ExtraKV(o, D, dec) ==
   IF "C12-extra-keys-kept" \notin D THEN <<>>
@@ -146,7 +159,7 @@ RECURSIVE PCFd(_, _, _), PCFObj(_, _, _)
 
 (* a field of a record: only name and type are relevant to parsing data *)
 PCFField(f, ns, D) ==
-  JObj(<< <<"name", Get(f, "name")>>, <<"type", PCFd(Get(f, "type"), ns, D)>> >> \o ExtraKV(f, D, FALSE))
+  JObj(WithForeign(f, << <<"name", Get(f, "name")>>, <<"type", PCFd(Get(f, "type"), ns, D)>> >>, D) \o ExtraKV(f, D, FALSE))
 
 PCFObj(o, ens, D) ==
   LET ty == Get(o, "type") IN
@@ -156,18 +169,18 @@ PCFObj(o, ens, D) ==
          LET full == DefFull(o, ens)
              ns == NsPart(full)
              fs == Get(o, "fields").items
-         IN JObj(<< <<"name", NTree(full)>>, <<"type", TypeStr("record")>>,
-                    <<"fields", JArr([i \in 1..Len(fs) |-> PCFField(fs[i], ns, D)])>> >> \o ExtraKV(o, D, FALSE))
+         IN JObj(WithForeign(o, << <<"name", NTree(full)>>, <<"type", TypeStr("record")>>,
+                    <<"fields", JArr([i \in 1..Len(fs) |-> PCFField(fs[i], ns, D)])>> >>, D) \o ExtraKV(o, D, FALSE))
     [] ty.s = "enum" ->
-         JObj(<< <<"name", NTree(DefFull(o, ens))>>, <<"type", TypeStr("enum")>>,
-                 <<"symbols", Get(o, "symbols")>> >> \o ExtraKV(o, D, FALSE))
+         JObj(WithForeign(o, << <<"name", NTree(DefFull(o, ens))>>, <<"type", TypeStr("enum")>>,
+                 <<"symbols", Get(o, "symbols")>> >>, D) \o ExtraKV(o, D, FALSE))
     [] ty.s = "fixed" ->
-         JObj(<< <<"name", NTree(DefFull(o, ens))>>, <<"type", TypeStr("fixed")>>,
-                 <<"size", Get(o, "size")>> >> \o ExtraKV(o, D, LogicalOf(o, "fixed") = "decimal"))
+         JObj(WithForeign(o, << <<"name", NTree(DefFull(o, ens))>>, <<"type", TypeStr("fixed")>>,
+                 <<"size", Get(o, "size")>> >>, D) \o ExtraKV(o, D, LogicalOf(o, "fixed") = "decimal"))
     [] ty.s = "array" ->
-         JObj(<< <<"type", TypeStr("array")>>, <<"items", PCFd(Get(o, "items"), ens, D)>> >> \o ExtraKV(o, D, FALSE))
+         JObj(WithForeign(o, << <<"type", TypeStr("array")>>, <<"items", PCFd(Get(o, "items"), ens, D)>> >>, D) \o ExtraKV(o, D, FALSE))
     [] ty.s = "map" ->
-         JObj(<< <<"type", TypeStr("map")>>, <<"values", PCFd(Get(o, "values"), ens, D)>> >> \o ExtraKV(o, D, FALSE))
+         JObj(WithForeign(o, << <<"type", TypeStr("map")>>, <<"values", PCFd(Get(o, "values"), ens, D)>> >>, D) \o ExtraKV(o, D, FALSE))
     [] ty.s \in PrimNames ->
          IF "C12-logical-primitive-object" \in D /\ LogicalOf(o, ty.s) # ""
          THEN JObj(<< <<"type", TypeStr(ty.s)>> >> \o ExtraKV(o, D, LogicalOf(o, ty.s) = "decimal"))
@@ -358,6 +371,7 @@ Respellings(o, ens) ==
       \cup (IF ns.u = ens.u THEN {withName(short)} ELSE {})                  \* inherited
       \cup (IF ~IsNullNs(ns) THEN {withName(full), withBoth(full, N("ignored", <<105, 103, 110, 111, 114, 101, 100>>))} ELSE {})  \* dotted full name; namespace then ignored
 
+ForeignVal == JInt(7)
 ForeignKeys(kind) ==
   CASE kind = "array" -> {"size", "symbols"}
     [] kind = "map" -> {"fields"}
@@ -383,7 +397,7 @@ EditsAt(t, s) ==
        \cup (IF s.kind = "field" THEN addKey("AddOrder", "order", Str_desc) ELSE {})
        \cup addKey("AddAttribute", "foo", AttrVal)
        \* an attribute whose key is structural for ANOTHER kind of node is an attribute like any other here
-       \cup UNION {IF HasKey(x, k) THEN {} ELSE {put("AddForeignKeyAttribute", [x EXCEPT !.kv = Append(@, <<k, AttrVal>>)])}
+       \cup UNION {IF HasKey(x, k) THEN {} ELSE {put("AddForeignKeyAttribute", [x EXCEPT !.kv = Append(@, <<k, ForeignVal>>)])}
                    : k \in ForeignKeys(s.kind)}
        \cup (IF s.kind \in NamedKinds THEN {put("RespellNamespace", y) : y \in Respellings(x, s.ens) \ {x}} ELSE {})
   ELSE IF s.kind = "prim" THEN
